@@ -262,8 +262,10 @@ def main(tier, seed, replay=None):
         a = o1.get(c["id"]) or {}
         if a.get("st") != "ok" or "val" not in a:
             hist["construct_failed"] += 1
-            # every program of the pool constructs its value on the unchanged tree: one that does not means part of the claim went unexplored
-            run.corr_breaks.append({"what": "a value-constructing program of the C12 pool does not evaluate (its round trip could not be explored)",
+            # every program of the ENUMERATED pool constructs its value on the unchanged tree: one that does not means part of the
+            # claim went unexplored (random values may legitimately fail to construct, e.g. a dict literal with two spellings of one key)
+            if c["label"].split(" ")[0] in ("spelled", "char", "charctx", "name", "pool", "attrname", "extra"):
+              run.corr_breaks.append({"what": "a value-constructing program of the C12 pool does not evaluate (its round trip could not be explored)",
                                     "case": {"label": c["label"], "src": c["src"]}, "observed": {k: a.get(k) for k in ("st", "msg", "site")}})
             continue
         if not num_ok(a["val"]):
